@@ -1,5 +1,5 @@
 From Coq Require Import ZArith List Bool.
-From UDS Require Import Lib.Bytes Model.Entry Model.Names Model.Helpers.
+From UDS Require Import Lib.Bytes Model.Entry Model.Names Model.Helpers Model.History.
 Import ListNotations.
 Open Scope Z_scope.
 
@@ -7,4 +7,5 @@ Definition run_case (e : Z) (a : list Z) (b : list bytes) : list Z :=
   if (1700 <=? e) && (e <? 1800) then entry_message e a b
   else if (2000 <=? e) && (e <? 2100) then entry_names e a
   else if (1900 <=? e) && (e <? 2000) then entry_helpers e a
+  else if e =? 5000 then entry_history a b
   else [-999].
